@@ -78,6 +78,35 @@ fn gen_ops(rng: &mut Rng, depth: usize) -> Vec<Op> {
 
 struct Flaw(String, String);
 
+/// Iterator over `data` whose `size_hint` is chosen by `mode`: a size hint is
+/// advisory, so what `extend` stores and counts must not depend on it.
+struct Hinted<'a> {
+    data: &'a [u8],
+    pos: usize,
+    mode: usize,
+}
+
+impl<'a> Iterator for Hinted<'a> {
+    type Item = u8;
+    fn next(&mut self) -> Option<u8> {
+        let b = self.data.get(self.pos).copied();
+        if b.is_some() {
+            self.pos += 1;
+        }
+        b
+    }
+    fn size_hint(&self) -> (usize, Option<usize>) {
+        let left = self.data.len() - self.pos;
+        match self.mode {
+            0 => (left, Some(left)),
+            1 => (0, None),
+            2 => (left / 2, Some(left / 2)),         // exact but too small
+            3 => (left + 1 + self.data.len() % 7, Some(left + 1 + self.data.len() % 7)), // exact but too large
+            _ => (left, None),
+        }
+    }
+}
+
 /// Runs `ops` on the real view and on the model. `model` receives the bytes
 /// that must have been initialised through this view.
 fn run_ops(b: &mut BufferRef, ops: &[Op], model: &mut Vec<u8>, counters: &mut [u64; 8]) -> Result<(), Flaw> {
@@ -86,7 +115,17 @@ fn run_ops(b: &mut BufferRef, ops: &[Op], model: &mut Vec<u8>, counters: &mut [u
         match op {
             Op::Write(d) | Op::Extend(d) => {
                 let is_write = matches!(op, Op::Write(_));
-                let r = if is_write { b.write(d) } else { b.extend(d.iter().cloned()) };
+                let r = if is_write {
+                    b.write(d)
+                } else {
+                    let mode = (d.len() + d.first().copied().unwrap_or(0) as usize) % 6;
+                    if mode == 5 {
+                        b.extend(d.iter().cloned())
+                    } else {
+                        counters[7] += 1;
+                        b.extend(Hinted { data: d, pos: 0, mode })
+                    }
+                };
                 let after = b.remaining();
                 if after > before {
                     return Err(Flaw("remaining-grew".into(), format!("{} -> {}", before, after)));
@@ -526,6 +565,7 @@ fn one(ctx: &mut Ctx, rng: &mut Rng) {
     ctx.count("early_exits", counters[4]);
     ctx.count("nested_views", counters[5]);
     ctx.count("capped_views", counters[6]);
+    ctx.count("extends_with_unreliable_size_hint", counters[7]);
     match r {
         Err(p) => ctx.panic_violation("buffer program", name, &p, case),
         Ok(Err(Flaw(what, detail))) => ctx.violation("model", name, &what, json!({"detail": detail}), case),
@@ -539,7 +579,7 @@ fn one(ctx: &mut Ctx, rng: &mut Rng) {
 
 fn main() {
     let mut ctx = Ctx::from_args("C19");
-    ctx.rule = "a case = one PRNG program (writes, iterator extends, nested views up to depth 3, capped views with cap <= remaining, reader fills, early exits) run against one backing store (Vec, ArrayVec<16>, ArrayVec<64>, byte slice, slice reference, capped slice) with capacity 0..64 and pre-existing length 0..capacity, compared with a byte-string model; non-trivial = at least two top-level ops; distinct = hash of store, capacity, pre-length and program".into();
+    ctx.rule = "a case = one PRNG program (writes, iterator extends (from slice iterators and from iterators with absent, too small and too large size hints), nested views up to depth 3, capped views with cap <= remaining, reader fills, early exits) run against one backing store (Vec, ArrayVec<16>, ArrayVec<64>, byte slice, slice reference, capped slice) with capacity 0..64 and pre-existing length 0..capacity, compared with a byte-string model; non-trivial = at least two top-level ops; distinct = hash of store, capacity, pre-length and program".into();
     ctx.assumptions = vec![
         "a write that does not fit may commit any prefix that still fits before it reports CapacityError (both all-or-nothing and the current prefix-commit behaviour satisfy the statement)".into(),
         "cap_at with a length above the remaining capacity is outside the domain (it panics when the view is created)".into(),
